@@ -102,6 +102,16 @@ CHECKS = {
         note="Trusted: the ledger allocators (h/c17_alloc.c). Error paths (MIR error callbacks) are out of scope: the property speaks of error-free "
              "histories.",
         design="3/C17"),
+    "C18": dict(
+        technique=TECH + "ThreadSanitizer build of the whole library under N threads with one context each, barriers lining up init / generation / "
+                         "execution windows, plus per-thread results compared with a single-threaded reference-model prediction",
+        text="Threads loop over complete single-context workloads (MIR text programs, C sources through c2mir, binary round trips, output, every "
+             "link interface and optimisation level, interpreted code with hard-register globals, finish calls) with staggered and lined-up context "
+             "creation and destruction. Every ThreadSanitizer report in library code and every difference from the single-threaded prediction is "
+             "a violation; a fatal signal in the threaded run is one too.",
+        note="Trusted: TSan's happens-before model; JIT-generated code is not instrumented (its data are thread-private). Repeated with several "
+             "seeds per tier because race reports depend on the schedule.",
+        design="3/C18"),
     "C20": dict(
         technique=TECH + "differential execution: gcc-compiled mir2c translation of generated programs vs MIR_interp (and the reference model) on "
                          "results, memory, data section and external-call order; translator run under a watchdog and an ASan/assert build",
